@@ -15,8 +15,10 @@ open Echse.Instant
 
 def intMin : Int := -2147483648
 def intMax : Int := 2147483647
-/-- conversion of a `time_t` to the `int32_t` parameter -/
+/-- conversion of a value to `int32_t` (the offset `x` in `zif_utc_time`) -/
 def wrap32 (t : Int) : Int := (t + 2147483648) % 4294967296 - 2147483648
+/-- `__clamp(t)`: a `time_t` handed to the 32-bit table; behind the table's ends things stay what they were -/
+def clamp32 (t : Int) : Int := if t > intMax then intMax else if t < intMin then intMin else t
 
 structure Zone where
   trs : List Int       -- transition times
@@ -87,7 +89,7 @@ def findZrng (z : Zone) (t : Int) : Option ZRng :=
 def ZRng.fresh : ZRng := { prev := 0, next := 0, offs := 0, trno := 0 }
 
 def offsC (z : Zone) (c : ZRng) (t0 : Int) : Option (Int × ZRng) :=
-  let t := wrap32 t0
+  let t := clamp32 t0
   if z.utc then some (0, c)
   else if t ≥ c.prev ∧ t < c.next then some (c.offs, c)
   else match findZrng z t with
@@ -110,8 +112,8 @@ def utcTime (z : Zone) (c : ZRng) (t : Int) : Option (Int × ZRng) :=
     match offsC z c1 (t - wrap32 x1) with
     | none => none
     | some (_, r) =>
-      let pv : Option (Option ZRng) := if r.prev > intMin then (findZrng z (wrap32 (r.prev - 1))).map some else some none
-      let nx : Option (Option ZRng) := if r.next < intMax then (findZrng z (wrap32 r.next)).map some else some none
+      let pv : Option (Option ZRng) := if r.prev > intMin then (findZrng z (clamp32 (r.prev - 1))).map some else some none
+      let nx : Option (Option ZRng) := if r.next < intMax then (findZrng z (clamp32 r.next)).map some else some none
       match pv, nx with
       | some pv, some nx =>
         let cand : List ZRng := pv.toList ++ [r] ++ nx.toList
@@ -149,6 +151,6 @@ def instantLoc (z : Zone) (c : ZRng) (i : Inst) : Option (Inst × ZRng) :=
 /-- `echs_tzob_offs(z, i, 0)`: uses `zif_find_zrng`, not the cache -/
 def tzobOffs (z : Zone) (i : Inst) : Option Int :=
   if i.isAllDay then some 0 else
-  (findZrng z (wrap32 (instToEpoch i))).map (·.offs)
+  (findZrng z (clamp32 (instToEpoch i))).map (·.offs)
 
 end Echse.Tz
